@@ -18,13 +18,18 @@ package telemetrykeys
 //@ method (*withTelemetry).SafeDetails
 //@   props C03 C11 C12
 //@   ensures result == self.keys
+//@   ensures[C03] safeSeq(result)
 
 //@ func WithTelemetry
 //@   props C10 C07 C12
 //@   ensures err == nil ==> result == nil
 //@   ensures err != nil ==> typeis(result, *withTelemetry) && result.(*withTelemetry).cause == err && result.(*withTelemetry).keys == keys
+//@   requires[C03,C12] safeSeq(keys)
 
 //@ func decodeWithTelemetry
 //@   props C05 C01 C11
 //@   requires cause != nil
 //@   ensures typeis(result, *withTelemetry) && result.(*withTelemetry).cause == cause && result.(*withTelemetry).keys == keys
+//@   requires[C03,C12] safeSeq(keys)
+
+//@ type withTelemetry invariant[C03,C12] safeSeq(self.keys)
